@@ -1,2 +1,162 @@
-(** C19 (stub while the driver is being brought up) *)
-From Ont Require Import Proofs.TxCodec.
+(** C19 — Transaction encoding is canonical and its hash binds the signed content.
+
+    Model: Model/TxCodec.v (Transaction.Deserialization, deserializeOntUnsigned, decodeEip155,
+    isEip155TxBytes with its BackUp calls, TransactionFromEIP155, TransactionFromRawBytes, RawSig,
+    the InvokeCode / DeployCode / EIP155Code decoders, and the writer of
+    MutableTransaction.serialize) over the ZeroCopySource model of C18. Limits and tags come from
+    Gen/TxConsts.v, regenerated from the linked packages and from validateDeployCode /
+    checkVmFlags / VmType on every run.
+
+    External functions are universally quantified in every theorem (never axioms):
+    [H] is sha256.Sum256 (no property of it is assumed; where collision freedom would be needed the
+    statement exhibits the collision), [E : ethapi etx] is go-ethereum (RLP decoder/encoder of
+    types.Transaction and the accessors TransactionFromEIP155 uses). The only hypothesis about it is
+    [rlp_canon]: rlp.DecodeBytes accepts only what rlp.EncodeToBytes writes. The harness validates
+    it on every RLP-decodable payload it meets (oracle class eip155:rlp-noncanonical).
+
+    Byte strings are lists of N; [wf_bytes b] says every element is below 256 (true of any Go
+    []byte). [good s] = the source offset is inside the buffer, the buffer is addressable and made
+    of bytes.
+
+    Where the decoder is lenient (stated precisely, none of it lets two byte strings share a hash):
+    - TransactionFromRawBytes ignores bytes after the transaction: [rest] below is arbitrary. The
+      transaction keeps only the consumed bytes ([t_raw]), so ToArray() never contains them.
+    - Signature scripts are not parsed by the decoder (opaque byte strings; C23/C16).
+    - EIP-155 format: the transaction hash is Ethereum's hash of the signed RLP, so it covers
+      v, r, s by design; only the signing hash is signature-independent ([c19_eip155_hashes]).
+    Everything else is enforced: version 0, known type, fixed-width fields, every variable-length
+    integer minimal (irregular ones are rejected at every position, including the attribute count
+    and the signature count), attribute count 0, at most TX_MAX_SIG_SIZE signature entries,
+    DeployCode flag in {0,1,3} kept as read, string/code limits, total size <= MAX_TX_SIZE. *)
+From Coq Require Import List NArith.
+Import ListNotations.
+From Ont Require Import Lib.Bytes Gen.TxConsts Model.Codec Proofs.Codec Model.TxCodec Proofs.TxCodec.
+Local Open Scope N_scope.
+
+Definition rlp_canon {etx} (E : ethapi etx) : Prop :=
+  forall b e, rlp_dec E b = Some e -> rlp_enc E e = b.
+
+(** 1. Accepted => re-serializes to exactly the consumed bytes (source level: Deserialization at any
+    position of any buffer; [tx_to_array] is Transaction.ToArray, [tx_encode] the field-wise writer). *)
+Theorem c19_deserialization_canonical :
+  forall (H : bytes -> bytes) etx (E : ethapi etx), rlp_canon E ->
+  forall s t s', good s -> tx_deserialization H E s = (inl t, s') ->
+    consumed s s' (tx_encode E t) /\ tx_to_array t = tx_encode E t /\
+    N.of_nat (length (tx_encode E t)) <= MAX_TX_SIZE.
+Proof. intros H etx E C. exact (deserialization_canonical H etx E C). Qed.
+Print Assumptions c19_deserialization_canonical.
+
+(** 1'. The same for TransactionFromRawBytes on any byte string. *)
+Theorem c19_decode_consumes_canonical :
+  forall (H : bytes -> bytes) etx (E : ethapi etx), rlp_canon E ->
+  forall b t s', wf_bytes b = true -> tx_from_raw_bytes H E b = (inl t, s') ->
+    exists rest, b = tx_encode E t ++ rest /\ tx_to_array t = tx_encode E t /\
+                 N.of_nat (length (tx_encode E t)) <= MAX_TX_SIZE /\
+                 src_pos s' = N.of_nat (length (tx_encode E t)).
+Proof. intros H etx E C. exact (decode_consumes_canonical H etx E C). Qed.
+Print Assumptions c19_decode_consumes_canonical.
+
+(** 2. One encoding: inputs decoding to the same transaction consumed the same bytes. *)
+Theorem c19_one_encoding :
+  forall (H : bytes -> bytes) etx (E : ethapi etx), rlp_canon E ->
+  forall s1 s1' s2 s2' t, good s1 -> good s2 ->
+    tx_deserialization H E s1 = (inl t, s1') -> tx_deserialization H E s2 = (inl t, s2') ->
+    slice (buf s1) (off s1) (off s1' - off s1) = slice (buf s2) (off s2) (off s2' - off s2).
+Proof. intros H etx E C. exact (one_encoding H etx E C). Qed.
+Print Assumptions c19_one_encoding.
+
+(** 3. Ontology format: the hash is H (H unsigned), where [unsigned] is the writer's encoding of the
+    unsigned fields and is the prefix of the consumed bytes; the signature section follows it. *)
+Theorem c19_hash_of_unsigned :
+  forall (H : bytes -> bytes) etx (E : ethapi etx), rlp_canon E ->
+  forall s t s', good s -> tx_deserialization H E s = (inl t, s') -> t_type t <> TX_EIP155 ->
+    let u := tx_encode_unsigned E t in
+    t_hash t = H (H u) /\ t_hash_unsigned t = H u /\
+    slice (buf s) (off s) (length u) = u /\ tx_encode E t = u ++ sigs_encode (t_sigs t).
+Proof. intros H etx E C. exact (hash_of_unsigned H etx E C). Qed.
+Print Assumptions c19_hash_of_unsigned.
+
+(** 3'. The hash is determined by the unsigned part only. *)
+Theorem c19_hash_unsigned_only :
+  forall (H : bytes -> bytes) etx (E : ethapi etx), rlp_canon E ->
+  forall s1 s1' t1 s2 s2' t2, good s1 -> good s2 ->
+    tx_deserialization H E s1 = (inl t1, s1') -> tx_deserialization H E s2 = (inl t2, s2') ->
+    t_type t1 <> TX_EIP155 -> t_type t2 <> TX_EIP155 ->
+    tx_encode_unsigned E t1 = tx_encode_unsigned E t2 ->
+    t_hash t1 = t_hash t2 /\ t_hash_unsigned t1 = t_hash_unsigned t2.
+Proof. intros H etx E C. exact (hash_unsigned_only H etx E C). Qed.
+Print Assumptions c19_hash_unsigned_only.
+
+(** 3''. Signatures do not change it: equal unsigned fields, any signature sections. *)
+Theorem c19_signatures_not_hashed :
+  forall (H : bytes -> bytes) etx (E : ethapi etx), rlp_canon E ->
+  forall s1 s1' t1 s2 s2' t2, good s1 -> good s2 ->
+    tx_deserialization H E s1 = (inl t1, s1') -> tx_deserialization H E s2 = (inl t2, s2') ->
+    t_type t1 <> TX_EIP155 ->
+    t_version t1 = t_version t2 -> t_type t1 = t_type t2 -> t_nonce t1 = t_nonce t2 ->
+    t_gasprice t1 = t_gasprice t2 -> t_gaslimit t1 = t_gaslimit t2 -> t_payer t1 = t_payer t2 ->
+    t_payload t1 = t_payload t2 ->
+    t_hash t1 = t_hash t2.
+Proof. intros H etx E C. exact (signatures_not_hashed H etx E C). Qed.
+Print Assumptions c19_signatures_not_hashed.
+
+(** 3'''. The hash binds the unsigned bytes, or a collision of H is exhibited. *)
+Theorem c19_hash_binds_unsigned :
+  forall (H : bytes -> bytes) etx (E : ethapi etx), rlp_canon E ->
+  forall s1 s1' t1 s2 s2' t2, good s1 -> good s2 ->
+    tx_deserialization H E s1 = (inl t1, s1') -> tx_deserialization H E s2 = (inl t2, s2') ->
+    t_type t1 <> TX_EIP155 -> t_type t2 <> TX_EIP155 ->
+    t_hash t1 = t_hash t2 ->
+    tx_encode_unsigned E t1 = tx_encode_unsigned E t2 \/ exists x y, x <> y /\ H x = H y.
+Proof. intros H etx E C. exact (hash_binds_unsigned H etx E C). Qed.
+Print Assumptions c19_hash_binds_unsigned.
+
+(** 3-eip. EIP-155 format (scope note of DESIGN §5 C19): hash = go-ethereum Hash() of the decoded
+    transaction, signing hash = signer.Hash; the consumed bytes are 00 d3 varbytes(rlp). *)
+Theorem c19_eip155_hashes :
+  forall (H : bytes -> bytes) etx (E : ethapi etx), rlp_canon E ->
+  forall s t s', good s -> tx_deserialization H E s = (inl t, s') -> t_type t = TX_EIP155 ->
+    exists e, t_payload t = PEip e /\ t_hash t = e_hash E e /\ t_hash_unsigned t = e_sighash E e /\
+              tx_encode E t = [0; TX_EIP155] ++ write_varbytes (rlp_enc E e).
+Proof. intros H etx E C. exact (eip155_hashes H etx E C). Qed.
+Print Assumptions c19_eip155_hashes.
+
+(** 4. Decoding is total and safe on every byte string: it returns a transaction or one of the
+    decoding errors, never the BackUp-underflow or VmType-panic outcome, and the source stays
+    inside the buffer. *)
+Theorem c19_decode_total :
+  forall (H : bytes -> bytes) etx (E : ethapi etx), rlp_canon E ->
+  forall b, wf_bytes b = true ->
+    let '(r, s') := tx_from_raw_bytes H E b in
+    r <> inr TBackUp /\ r <> inr TPanic /\ buf s' = b /\ (off s' <= length b)%nat.
+Proof. intros H etx E C. exact (decode_total H etx E C). Qed.
+Print Assumptions c19_decode_total.
+
+Theorem c19_deserialization_total :
+  forall (H : bytes -> bytes) etx (E : ethapi etx), rlp_canon E ->
+  forall s, good s ->
+    let '(r, s') := tx_deserialization H E s in
+    step_safe s s' /\ r <> inr TBackUp /\ r <> inr TPanic.
+Proof. intros H etx E C. exact (deserialization_total H etx E C). Qed.
+Print Assumptions c19_deserialization_total.
+
+(** 5. Inputs above the size limit are rejected (the bound on accepted ones is in 1 and 1'). *)
+Theorem c19_oversize_rejected :
+  forall (H : bytes -> bytes) etx (E : ethapi etx) b,
+    MAX_TX_SIZE < N.of_nat (length b) -> fst (tx_from_raw_bytes H E b) = inr TOversize.
+Proof. intros H etx E. exact (oversize_rejected H etx E). Qed.
+Print Assumptions c19_oversize_rejected.
+
+(** Non-vacuity: with a concrete hash stand-in and a concrete (canonical) Ethereum API, an invoke
+    transaction without signatures and the same transaction with one signature entry are both
+    accepted, consume different bytes, and have the same hash; an EIP-155 wrapper is accepted too. *)
+Definition ex_H (b : bytes) : bytes := firstn 4 b ++ [N.of_nat (length b)].
+Definition ex_E : ethapi bytes :=
+  mkEth bytes (fun b => Some b) (fun e => e) (fun _ => 7) (fun _ => 3 * GWEI) (fun _ => 21000)
+        (fun _ => Some (repeat 9 20)) (fun e => [1]) (fun e => [2]).
+Definition ex_unsigned : bytes :=
+  [0; 209; 1;0;0;0; 2;0;0;0;0;0;0;0; 3;0;0;0;0;0;0;0] ++ repeat 5 20 ++ [2; 81; 82; 0].
+Definition ex_b1 : bytes := ex_unsigned ++ [0].
+Definition ex_b2 : bytes := ex_unsigned ++ [1; 2; 170; 187; 1; 204] ++ [99].
+Definition ex_b3 : bytes := [0; 211; 3; 193; 128; 128].
+
